@@ -263,10 +263,11 @@ Definition symbol_domain (a : operand) : domain :=
 
 (* ImpedanceMixin.__rtruediv__ / AdmittanceMixin.__rtruediv__ when the numerator
    has no free symbols: admittance(x.expr / self.expr) resp. impedance(...) *)
-Definition mixin_rtruediv (num_zero : bool) (self : operand) : res :=
+Definition mixin_rtruediv (num : operand) (self : operand) : res :=
   let q := match mown M_rtruediv self with O_ImpedanceMixin => Qadmittance | _ => Qimpedance end in
   (* 0 / e evaluates to 0, which has no symbols *)
-  construct (exprmap q (if num_zero then Dconstant else symbol_domain self)) false None.
+  construct (exprmap q (if vkeqb (ov num) VZ then Dconstant else symbol_domain self)) false
+            (if rdiv_keeps_units T then Some (usub (ou num) (ou self)) else None).
 
 (* x / self evaluated as Python does it: the reflected method of the right operand
    is tried first when its class is a proper subclass of the left operand's class
@@ -275,13 +276,13 @@ Definition has_mixin_rtruediv (b : operand) : bool :=
   match mown M_rtruediv b with O_ImpedanceMixin | O_AdmittanceMixin => true | _ => false end.
 Definition truediv_model (a b : operand) : res :=
   if has_mixin_rtruediv b && subclass T (od b) (oq b) (od a) (oq a)
-  then (if no_symbols a then mixin_rtruediv (vkeqb (ov a) VZ) b else div_model a b)
+  then (if no_symbols a then mixin_rtruediv a b else div_model a b)
   else div_model a b.
 
 (* 1 / self  and  self ** -1  (Expr.__pow__: self.__rtruediv__(1)) *)
 Definition one : operand := Op Dconstant Qundef uzero VC.
 Definition rdiv1_model (self : operand) : res :=
-  if has_mixin_rtruediv self then mixin_rtruediv false self else div_model one self.
+  if has_mixin_rtruediv self then mixin_rtruediv one self else div_model one self.
 Definition pow_model (self : operand) (k : Z) : res :=
   if Z.eqb k 2 then mul_model self self
   else if Z.eqb k (-1) then rdiv1_model self
@@ -289,9 +290,10 @@ Definition pow_model (self : operand) (k : Z) : res :=
 
 (* ---- Expr.__compat_add__ ------------------------------------------------------------ *)
 Inductive side := Self | Other.
-Definition compat_add (fl : flags) (a b : operand) : errk + side :=
+(* [ueq]: do the canonical units of the two operands compare equal *)
+Definition compat_add_b (fl : flags) (a b : operand) (ueq : bool) : errk + side :=
   let zero x := vkeqb (ov x) VZ in
-  if check fl && negb (ueqb (ou a) (ou b)) && negb (zero a) && negb (zero b)
+  if check fl && negb ueq && negb (zero a) && negb (zero b)
      && negb (loose fl && (cq G_is_undefined a || cq G_is_undefined b))
   then inl EU
   else if is_const b && qeqb (aq b) Qundef && (loose fl || zero b) then inr Self
@@ -303,45 +305,64 @@ Definition compat_add (fl : flags) (a b : operand) : errk + side :=
     match add_compatible a b with
     | None => inl EX
     | Some ok =>
+      (* the conversion branches ("For phasor comparisons..."), optionally guarded by
+         `self.quantity != x.quantity and 'undefined' not in (self.quantity, x.quantity)` *)
+      let conv := negb (compat_guard T && negb (qeqb (aq a) (aq b)) && negb (qeqb (aq a) Qundef) && negb (qeqb (aq b) Qundef)) in
       if qeqb (aq a) (aq b) && ok then inr Self
-      else if cd F_is_phasor_ratio_domain a && cd F_is_angular_fourier_domain b then inr Self
-      else if cd F_is_angular_fourier_domain a && cd F_is_phasor_ratio_domain b then inr Other
-      else if cd F_is_angular_frequency_response_domain a && cd F_is_angular_fourier_domain b then inr Self
-      else if cd F_is_angular_fourier_domain a && cd F_is_angular_frequency_response_domain b then inr Other
+      else if conv && cd F_is_phasor_ratio_domain a && cd F_is_angular_fourier_domain b then inr Self
+      else if conv && cd F_is_angular_fourier_domain a && cd F_is_phasor_ratio_domain b then inr Other
+      else if conv && cd F_is_angular_frequency_response_domain a && cd F_is_angular_fourier_domain b then inr Self
+      else if conv && cd F_is_angular_fourier_domain a && cd F_is_angular_frequency_response_domain b then inr Other
       else if negb ok then inl ED
       else if qeqb (aq a) Qundef && (loose fl || cq G_is_transfer b) then inr Other
       else if qeqb (aq b) Qundef && (loose fl || cq G_is_transfer a) then inr Self
       else inl EQ
     end.
 
-(* Expr.__add__ / __sub__: cls(self.sympy +- x.sympy, **assumptions of self) *)
-Definition add_model (fl : flags) (a b : operand) : res :=
+Definition compat_add (fl : flags) (a b : operand) : errk + side := compat_add_b fl a b (ueqb (ou a) (ou b)).
+
+(* Expr.__add__ / __sub__: cls(self.sympy +- x.sympy, **assumptions of self); the units
+   are the class default, or (Expr._sum_units) those of the first non-zero operand of
+   class cls *)
+Definition sum_units (a b w : operand) : option uvec :=
+  if add_keeps_units T then
+    let sc x := deqb (od x) (od w) && qeqb (oq x) (oq w) && negb (vkeqb (ov x) VZ) in
+    if sc a then Some (ou a) else if sc b then Some (ou b) else None
+  else None.
+Definition add_model_b (fl : flags) (a b : operand) (ueq : bool) : res :=
   match mown M_add a, mown M_compat_add a with
   | O_Expr, O_Expr =>
-      match compat_add fl a b with
+      match compat_add_b fl a b ueq with
       | inl e => RE e
       | inr s =>
           let w := match s with Self => a | Other => b end in
-          construct (Some (od w, oq w)) (is_undef_dom a) None
+          construct (Some (od w, oq w)) (is_undef_dom a) (sum_units a b w)
       end
   | _, _ => RE EX
   end.
+Definition add_model (fl : flags) (a b : operand) : res := add_model_b fl a b (ueqb (ou a) (ou b)).
+(* the class of a result, forgetting its units *)
+Definition res_class (r : res) : res := match r with RK d q _ => RK d q uzero | x => x end.
 Definition sub_model := add_model.
 
 (* Expr.__eq__: False when __compat_add__ refuses, else equality of the values;
    [same] = whether the two sympy values are equal *)
-Definition eq_model (fl : flags) (a b : operand) (same : bool) : res :=
+Definition eq_model_b (fl : flags) (a b : operand) (same ueq : bool) : res :=
   match mown M_eq a, mown M_compat_add a with
   | O_Expr, O_Expr =>
-      match compat_add fl a b with
+      match compat_add_b fl a b ueq with
       | inl _ => RB false
       | inr _ => RB same
       end
   | _, _ => RE EX
   end.
 
+Definition eq_model (fl : flags) (a b : operand) (same : bool) : res := eq_model_b fl a b same (ueqb (ou a) (ou b)).
+
 (* a == b as Python evaluates it: when the class of b is a proper subclass of the
    class of a, b.__eq__(a) is tried first (rich comparisons give the subclass priority) *)
+Definition eq_py_b (fl : flags) (a b : operand) (same ueq : bool) : res :=
+  if subclass T (od b) (oq b) (od a) (oq a) then eq_model_b fl b a same ueq else eq_model_b fl a b same ueq.
 Definition eq_py (fl : flags) (a b : operand) (same : bool) : res :=
   if subclass T (od b) (oq b) (od a) (oq a) then eq_model fl b a same else eq_model fl a b same.
 
@@ -374,7 +395,13 @@ Definition transform_model (a : operand) (tgt : domain) : res :=
       | Some k => construct c true (Some (uadd (ou a) k))
       | None => RE EX
       end
-  | Dtime, Dfourier | Dtime, Dangular_fourier => construct c true None
+  | Dtime, Dfourier | Dtime, Dangular_fourier =>
+      if ft_keeps_units T then
+        match site_scale (sites T) Dtime Dfourier with
+        | Some k => construct c true (Some (uadd (ou a) k))
+        | None => RE EX
+        end
+      else construct c true None
   | Dlaplace, Dtime | Dfourier, Dtime | Dangular_fourier, Dtime =>
       match site_scale (sites T) (od a) Dtime with
       | Some k => construct c true (Some (uadd (ou a) k))
